@@ -380,6 +380,12 @@ def main():
                   programs=int(sum(v for k, v in agg['dist'].items() if k.startswith('profile:'))),
                   known_finding_instances=dict(agg['known_hits']),
                   ambiguous_orders_skipped=int(st.get('ambiguous_orders', 0)),
+                  plain_program_theorems=dict(
+                      note='hypotheses of the kind-F theorems (plain_prog, valid_orders) evaluated by the extracted model on every generated '
+                           'case, with the launch / successor orders recorded from the real chart',
+                      runs_of_plain_programs=int(st.get('plain_programs_runs', 0)),
+                      hypotheses_hold=int(st.get('plain_hypotheses_hold', 0)),
+                      deadlocks_of_the_real_engine_on_them=int(st.get('plain_deadlocks', 0))),
                   input_distribution={k: v for k, v in sorted(agg['dist'].items())},
                   corpus=dict(fixed_defects_replayed=corpus.get('n_fixed', 0), known_findings_replayed=[k['id'] for k in corpus.get('known', [])]),
                   obligations_broken=obligations_broken,
